@@ -321,6 +321,7 @@ func runC11(c *Ctx, r *Report) {
 	c11CsvEncoded(c, r)
 	c11UnitScaling(c, r)
 	c11LeftFold(c, r, "C11-b/left-fold")
+	c11IntegerExact(c, r, "C11-f/integer-exact")
 	// (d) a helper is a function of its arguments: stage closures keep no state between evaluations
 	c05StagePurity(c, r, "C11-d")
 	okResultLive(c, r, "C11-a/ok-live", "rare/pkg/expressions/stdlib")
